@@ -793,7 +793,7 @@ func genToken(r *Rng, p *pool, tier string, it int, emit Emit) {
 func gen(r *Rng, tier string, emit Emit) {
 	n := 60
 	if tier == "thorough" {
-		n = 1500
+		n = 300 // every flip sweep is exhaustive in this tier: about 3 s per iteration
 	}
 	p := newPool(r.Fork(1), tier)
 	for it := 0; it < n; it++ {
